@@ -156,6 +156,8 @@ var saReaders = []*saReader{
 		read: func(in *saInput) error { _, err := gtab.Read(in.src, gtab.TypeGsub); return err }},
 	{name: "gtab.Read(GPOS)", viaReader: true, stream: table("GPOS"),
 		read: func(in *saInput) error { _, err := gtab.Read(in.src, gtab.TypeGpos); return err }},
+	gtabV11("GSUB", gtab.TypeGsub, false), gtabV11("GPOS", gtab.TypeGpos, false),
+	gtabV11("GSUB", gtab.TypeGsub, true), gtabV11("GPOS", gtab.TypeGpos, true),
 	{name: "gdef.Read", viaReader: true, stream: table("GDEF"),
 		read: func(in *saInput) error { _, err := gdef.Read(in.src); return err }},
 	{name: "name.Decode", stream: table("name"),
@@ -186,6 +188,38 @@ var saReaders = []*saReader{
 			return info.Encode()
 		},
 		read: func(in *saInput) error { _, err := kern.Read(in.src); return err }},
+}
+
+// gtabV11: a GSUB/GPOS table of version 1.1 (the writer only emits 1.0): the header has a fourth, 4-byte
+// offset (featureVariationsOffset, null here), so it is 14 bytes long.  empty: no lists at all (the three
+// list offsets are null: a complete, legal table of 14 bytes); otherwise the font's own table with the
+// longer header (list offsets moved by 4).
+func gtabV11(tag string, tp gtab.Type, empty bool) *saReader {
+	name := fmt.Sprintf("gtab.Read(%s)[version=1.1]", tag)
+	if empty {
+		name = fmt.Sprintf("gtab.Read(%s)[version=1.1,empty]", tag)
+	}
+	return &saReader{name: name, viaReader: true,
+		stream: func(_ *sfnt.Font, tabs map[string][]byte) []byte {
+			if empty {
+				return []byte{0, 1, 0, 1, 0, 0, 0, 0, 0, 0, 0, 0, 0, 0}
+			}
+			t := tabs[tag]
+			if len(t) < 10 || t[0] != 0 || t[1] != 1 || t[2] != 0 || t[3] != 0 {
+				return nil
+			}
+			out := append([]byte{}, t[:10]...)
+			out[3] = 1
+			for i := 4; i < 10; i += 2 {
+				if off := int(out[i])<<8 | int(out[i+1]); off != 0 {
+					off += 4
+					out[i], out[i+1] = byte(off>>8), byte(off)
+				}
+			}
+			out = append(out, 0, 0, 0, 0)
+			return append(out, t[10:]...)
+		},
+		read: func(in *saInput) error { _, err := gtab.Read(in.src, tp); return err }}
 }
 
 // os2Version: the OS/2 table of the font with its version word set to v (the writer only emits one
